@@ -62,6 +62,38 @@ def handleFault (j : Json) : R Json := do
                    ("retries", jNat (if p == .windows && Spec.retriesPartialCopy meth
                                         && winerror == some Spec.partialCopyCode then Spec.partialCopyRetries else 0))])]
 
+def jAfter : After → Json
+  | .ended o s => jObj [("k", "ended"), ("o", jOutcome o), ("sleeps", jNat s)]
+  | .goesOn .fallback s => jObj [("k", "fallback"), ("sleeps", jNat s)]
+  | .goesOn .rerun s => jObj [("k", "rerun"), ("sleeps", jNat s)]
+
+/-- two faulted native calls: `call1` raises `e1`, a later `call2` raises `e2` -/
+def handleFault2 (j : Json) : R Json := do
+  let p ← strF j "plat" >>= parsePlat
+  let meth ← strF j "meth"
+  let call1 ← strF j "call"
+  let errno1 ← strF j "errno" >>= parseErrno
+  let win1 ← optF asNat j "winerror"
+  let call2 ← strF j "call2"
+  let errno2 ← strF j "errno2" >>= parseErrno
+  let win2 ← optF asNat j "winerror2"
+  let state ← strF j "state" >>= parseState
+  let pid ← natF j "pid"
+  let pid0 ← boolF j "pid0"
+  let m ← match methodOf? p meth with
+    | some m => pure m
+    | none => .error s!"method {meth} is not in the generated method list of {p.key}"
+  let e1 : Err := ⟨errno1, win1⟩
+  let e2 : Err := ⟨errno2, win2⟩
+  let env : Env := ⟨pid, state, pid0⟩
+  let (o, sleeps) := methodFault2 cfg p m call1 e1 call2 e2 env
+  let allowed := (candidates e2 pid).filter (Spec.allowed2 p meth call1 e1 call2 e2 env)
+  return jObj [
+    ("model", jObj [("o", jOutcome o), ("sleeps", jNat sleeps), ("wrapped", Json.bool m.wrapped),
+                    ("first", jAfter (afterFirst cfg p m call1 e1 env))]),
+    ("spec", jObj [("cell", jOutcome (Spec.contract p.family e2 env)), ("allowed", jList jOutcome allowed),
+                   ("retries", jNat 0)])]
+
 /-- "map.slot[*k]" → (map, slot index, multiplier) through the generated slot maps -/
 def resolve (f : Family) (src : String) : Json :=
   let parts := src.splitOn "*"
@@ -142,6 +174,7 @@ def handle (_ : Unit) (j : Json) : R (Unit × Json) := do
   let op ← strF j "op"
   let r ← (
     if op == "fault" then handleFault j
+    else if op == "fault2" then handleFault2 j
     else if op == "record" then handleRecord j
     else if op == "netif" then handleNetif j
     else if op == "api" then handleApi j
